@@ -8,7 +8,7 @@ import Chiritori.Lemmas.Exact
   * `regions_spec`: those regions are sorted, disjoint and cover exactly the ready extents (one per
     default-strategy element, two per unwrapped element, nested regions absorbed) - C02/C03's coverage theorem.
   * `removed_text`: the source minus the listed regions is the text before whitespace tidying.
-  * `line_numbers`: the reported line numbers are 1 + the number of line breaks at or before the first /
+  * `line_numbers`: the reported line numbers are 1 + the number of line breaks before the first /
     last byte of the region.
   * purity: `list` is a function of source and configuration (it is one in the model by construction;
     in Rust it takes an `Rc<String>` and returns a `String`).
@@ -70,33 +70,35 @@ theorem item_count (src ds de : List Char) (cfg : Cfg) (hde : de ≠ [])
       (refRegions (conditionHolds cfg) (bytesOf src) (parseSource src ds de)).length := by
   rw [← regions_exact src ds de cfg hde hw, List.length_map]
 
-/-- `find_line` on a sorted table: one more than the number of breaks at or before the needle -/
+/-- `find_line` on a sorted table: one more than the number of breaks before the needle (a line break belongs to
+    the line it ends) -/
 theorem findLine_spec (lm : List Nat) (hs : lm.Pairwise (· < ·)) (x : Nat) :
-    findLine lm x = 1 + (lm.filter fun p => decide (p ≤ x)).length := by
+    findLine lm x = 1 + (lm.filter fun p => decide (p < x)).length := by
   unfold findLine
   induction lm with
   | nil => simp
   | cons a rest ih =>
     simp only [List.pairwise_cons] at hs
-    by_cases ha : a > x
-    · have hall : (rest.filter fun p => decide (p ≤ x)) = [] := by
+    by_cases ha : a ≥ x
+    · have hall : (rest.filter fun p => decide (p < x)) = [] := by
         rw [List.filter_eq_nil_iff]
         intro p hp
         have := hs.1 p hp
         simp; omega
-      simp [List.findIdx?_cons, ha, hall]
-    · have hle : a ≤ x := by omega
+      have hna : ¬ a < x := by omega
+      simp [List.findIdx?_cons, ha, hall, hna]
+    · have hle : a < x := by omega
       have ih' := ih hs.2
       simp only [List.findIdx?_cons, ha, decide_false, Bool.false_eq_true, ite_false, List.filter_cons, hle,
         decide_true, ite_true, List.length_cons]
-      cases hf : rest.findIdx? (fun v => decide (v > x)) with
+      cases hf : rest.findIdx? (fun v => decide (v ≥ x)) with
       | none => rw [hf] at ih'; simp at ih' ⊢; omega
       | some i => rw [hf] at ih'; simp at ih' ⊢; omega
 
 theorem line_numbers (b : Bytes) (start stop : Nat) (h : 0 < stop) :
     getLineRange (lineBreaks b) start stop =
-      .ok (1 + ((lineBreaks b).filter fun p => decide (p ≤ start)).length,
-           1 + ((lineBreaks b).filter fun p => decide (p ≤ stop - 1)).length) := by
+      .ok (1 + ((lineBreaks b).filter fun p => decide (p < start)).length,
+           1 + ((lineBreaks b).filter fun p => decide (p < stop - 1)).length) := by
   unfold getLineRange subU
   rw [if_pos (by omega)]
   simp only [bind, Except.bind, pure, Except.pure]
